@@ -54,6 +54,10 @@ func (s *Slice) Apply(inputs []tensor.Tensor) ([]tensor.Tensor, error) {
 		}
 	}
 
+	if err := s.checkSlices(starts, ends, steps, axes, data.Shape()); err != nil {
+		return nil, err
+	}
+
 	slices := s.constructSlices(starts, ends, steps, axes, len(data.Shape()))
 
 	out, err := data.Slice(slices...)
@@ -94,6 +98,42 @@ func (s *Slice) GetInputTypeConstraints() [][]tensor.Dtype {
 // String implements the stringer interface, and can be used to format errors or messages.
 func (s *Slice) String() string {
 	return "slice operator"
+}
+
+// checkSlices refuses the requests that cannot be answered: operands of different lengths,
+// axes that are out of range, steps that are not positive and slices whose result would be
+// empty (a tensor with a zero extent cannot be represented).
+func (s *Slice) checkSlices(starts, ends, steps, axes []int, shape tensor.Shape) error {
+	if len(ends) != len(starts) || len(axes) != len(starts) || len(steps) != len(starts) {
+		return ops.ErrInvalidInput("starts, ends, axes and steps must have the same length", s)
+	}
+
+	rank := len(shape)
+
+	for i, ax := range axes {
+		if ax < -rank || ax >= rank {
+			return ops.ErrAxisOutOfRange(rank, rank, ax)
+		}
+
+		if ax < 0 {
+			ax = rank + ax
+		}
+
+		if steps[i] <= 0 {
+			return ops.ErrInvalidInput("only positive steps are supported", s)
+		}
+
+		end := ends[i]
+		if end > shape[ax] {
+			end = shape[ax]
+		}
+
+		if starts[i] >= end {
+			return ops.ErrInvalidInput("empty slices are not supported", s)
+		}
+	}
+
+	return nil
 }
 
 // constructSlice constructs a list with tensor.Slice objects. The list is initializes with nils.
